@@ -27,7 +27,7 @@ RULE = ("random tree with a random quantity form per node (lambda / def / string
         "and original; distinct = hash of parameters; non-trivial = some fill passed the gate")
 SHRINK_LISTS = ["sa", "cont"]
 
-FORMS = ["lambda", "lambda", "def", "str", "cached", "cachedstr"]
+FORMS = ["lambda", "lambda", "def", "str", "cached", "cachedstr", "namedstr", "cachednamedstr"]
 
 
 def add_forms(rng, spec):
